@@ -52,7 +52,9 @@ func c18Class(err error) string {
 	case errors.As(err, &pe):
 		return "err:open"
 	default:
-		return "err:read"
+		// a read error, or a message in other words than this table knows: some error; the
+		// comparison with the model accepts any error class in its place
+		return unclassified
 	}
 }
 
